@@ -12,11 +12,14 @@ package template
 //@ func (*Registry).Add
 //@   props C06 C05
 //@   requires soyfile != nil && registryOK(r)
+//@   requires[position-maps-are-two-maps;C19] r.sourceByTemplateName == nil || r.sourceByTemplateName != r.fileByTemplateName
 //@   requires[parsed-file] forall(k, 0, len(soyfile.Body), typeis(soyfile.Body[k], *ast.TemplateNode) ==> unbox(soyfile.Body[k], *ast.TemplateNode).Body != nil)
 //@   modifies *
 //@   ensures[keeps-registry-well-formed] registryOK(r)
 //@   at call store#16 assert[a-template's-namespace-is-the-declaration-of-its-own-file;C03] val != nil && exists(k, 0, len(soyfile.Body), typeis(soyfile.Body[k], *ast.NamespaceNode) && unbox(soyfile.Body[k], *ast.NamespaceNode) == val)
 //@   at call store#15 assert[the-template-of-this-file;C03] val == tn && typeis(soyfile.Body[i], *ast.TemplateNode) && unbox(soyfile.Body[i], *ast.TemplateNode) == val
+//@   at call mapupdate#0 assert[source-recorded-for-the-definition-lookups-return-(the-first);C19] !haskey(r.fileByTemplateName, key) && same(key, tn.Name) && same(val, soyfile.Text)
+//@   at call mapupdate#1 assert[file-recorded-for-the-definition-lookups-return-(the-first);C19] !haskey(m, key) && same(key, tn.Name) && same(val, soyfile.Name)
 //@   at call store#9 assert[folded-header-param-keeps-its-name;C07] val == param.Name
 //@   at call store#10 assert[folded-header-param-keeps-its-optional-flag;C07] val == param.Optional
 //@   loop 0
